@@ -286,29 +286,47 @@ func exactGridUV(i int64) *big.Rat {
 	return r
 }
 
-// searchUV attacks H_UVROUNDTRIP: u in [-1,1], i = stToIJ(uvToST(u)):
-//   stToUV(i/2^30) - 2^-52 <= u <= stToUV((i+1)/2^30) + 2^-52   (floats, as Cell.ContainsPoint tests)
-// and, exactly, u within 2^-51 of the true interval of the cell.
+// searchUV attacks the numeric hypotheses of c01_leaf_contains_point_under_H on u in [-1,1]:
+//   H-UVROUNDTRIP  |stToUV(uvToST(u)) - u| <= 4.5 * 2^-52
+//   H-GRIDCELL     with s = uvToST(u), i = stToIJ(s): stToUV(i/2^30) <= stToUV(s) <= stToUV((i+1)/2^30)
+// and their consequence as Cell.ContainsPoint tests it (margin 5 * 2^-52, float subtraction/addition),
+// and, exactly, u within 6 * 2^-52 of the true uv-interval of the column.
 func (g *gen) searchUV(u float64) {
 	if !(u >= -1 && u <= 1) {
 		return
 	}
-	i := s2.VerifC01StToIJ(s2.VerifC01UVToST(u))
+	s := s2.VerifC01UVToST(u)
+	st := s2.VerifC01StToUV(s)
+	i := s2.VerifC01StToIJ(s)
 	lo, hi := s2.VerifC01StToUV(s2.VerifC01IJToSTMin(i)), s2.VerifC01StToUV(s2.VerifC01IJToSTMin(i+1))
 	rep := map[string]interface{}{"u": u, "bits": fmt.Sprintf("%x", math.Float64bits(u)), "i": i}
 	g.c.Eval("uv:"+fmt.Sprintf("%x", math.Float64bits(u)), true)
-	if !(lo-0x1p-52 <= u && u <= hi+0x1p-52) {
-		g.c.Violate("Hyp.UVROUNDTRIP", "u is more than 2^-52 outside the float uv-interval of its own leaf column", rep)
-	}
 	ur := new(big.Rat).SetFloat64(u)
-	eps := new(big.Rat).SetFloat64(0x1p-51)
+	d := new(big.Rat).Sub(new(big.Rat).SetFloat64(st), ur)
+	if !(s >= 0 && s <= 1) || d.Abs(d).Cmp(new(big.Rat).SetFloat64(4.5*0x1p-52)) > 0 {
+		g.c.Violate("Hyp.UVROUNDTRIP", "stToUV(uvToST(u)) differs from u by more than 4.5*2^-52 (or uvToST(u) outside [0,1])", rep)
+	}
+	if !(lo <= st && st <= hi && lo >= -1 && hi <= 1) {
+		g.c.Violate("Hyp.GRIDCELL", "the uv-interval of column stToIJ(s) does not bracket stToUV(s)", rep)
+	}
+	// as Cell.ContainsPoint tests it (margin dblEpsilon): failures up to 4.5*2^-52 are the known
+	// finding Cell.ContainsPoint.leafMargin, anything farther out is a different defect
+	const margin = 0x1p-52
+	if !(lo-margin <= u && u <= hi+margin) {
+		if lo-4.5*margin <= u && u <= hi+4.5*margin {
+			g.violate("Cell.ContainsPoint.leafMargin", "u is more than dblEpsilon (but at most 4.5*dblEpsilon) outside the uv-interval of its own leaf column", rep)
+		} else {
+			g.c.Violate("Hyp.UVROUNDTRIP.cell", "u is more than 4.5*2^-52 outside the float uv-interval of its own leaf column", rep)
+		}
+	}
+	eps := new(big.Rat).SetFloat64(6 * 0x1p-52)
 	if new(big.Rat).Add(ur, eps).Cmp(exactGridUV(int64(i))) < 0 || new(big.Rat).Sub(ur, eps).Cmp(exactGridUV(int64(i+1))) > 0 {
-		g.c.Violate("Hyp.UVROUNDTRIP.exact", "u is more than 2^-51 outside the exact uv-interval of its own leaf column", rep)
+		g.c.Violate("Hyp.UVROUNDTRIP.exact", "u is more than 6*2^-52 outside the exact uv-interval of its own leaf column", rep)
 	}
 }
 
 // searchPoint: the leaf is valid, is a leaf, its face is a face of maximal |coordinate|, and the
-// exact (u,v) of p lies within 2^-51 of the exact uv-rectangle of the leaf and of every ancestor.
+// exact (u,v) of p lies within 6*2^-52 of the exact uv-rectangle of the leaf and of every ancestor.
 func (g *gen) searchPoint(pt s2.Point, leaf s2.CellID, f int) {
 	x, y, z := pt.X, pt.Y, pt.Z
 	rep := map[string]interface{}{"p": []float64{x, y, z}, "bits": fmt.Sprintf("%x/%x/%x", math.Float64bits(x), math.Float64bits(y), math.Float64bits(z)), "leaf": hx(leaf)}
@@ -317,8 +335,11 @@ func (g *gen) searchPoint(pt s2.Point, leaf s2.CellID, f int) {
 		g.c.Violate("Point.LeafValid", "cellIDFromPoint does not return a valid leaf", rep)
 		return
 	}
-	if s2.CellFromPoint(pt).ID() != leaf || !s2.CellFromPoint(pt).ContainsPoint(pt) {
-		g.c.Violate("Point.LeafContains", "CellFromPoint(p).ContainsPoint(p) is false", rep)
+	if s2.CellFromPoint(pt).ID() != leaf {
+		g.c.Violate("Point.LeafID", "CellFromPoint(p).ID() differs from cellIDFromPoint(p)", rep)
+	}
+	if !s2.CellFromPoint(pt).ContainsPoint(pt) {
+		g.violate(containFailKind(pt, leaf, "Point.LeafContains"), "CellFromPoint(p).ContainsPoint(p) is false", rep)
 	}
 	co := [3]float64{x, y, z}
 	ax := r.f % 3
@@ -346,7 +367,7 @@ func (g *gen) searchPoint(pt s2.Point, leaf s2.CellID, f int) {
 		un, vn, w = neg(Y), neg(X), Z
 	}
 	U, V := new(big.Rat).Quo(un, w), new(big.Rat).Quo(vn, w)
-	eps := new(big.Rat).SetFloat64(0x1p-51)
+	eps := new(big.Rat).SetFloat64(6 * 0x1p-52)
 	for l := 30; l >= 0; l-- {
 		a := r.parent(l)
 		slo, shi, tlo, thi := a.square() // in 2^31 units; grid coordinate = s/2
@@ -355,7 +376,7 @@ func (g *gen) searchPoint(pt s2.Point, leaf s2.CellID, f int) {
 		}
 		if !in(U, slo, shi) || !in(V, tlo, thi) {
 			rep["level"] = l
-			g.c.Violate("Point.ExactContains", "the exact (u,v) of p is more than 2^-51 outside the exact rectangle of an ancestor of its leaf", rep)
+			g.c.Violate("Point.ExactContains", "the exact (u,v) of p is more than 6*2^-52 outside the exact rectangle of an ancestor of its leaf", rep)
 			break
 		}
 	}
@@ -550,4 +571,35 @@ func (g *gen) searchNeighbors(ids []s2.CellID) {
 			g.c.Violate("All.Nil", "AllNeighbors(level < cell level) is not nil", rep)
 		}
 	}
+}
+
+// containFailKind classifies a failed Cell(id).ContainsPoint(p) for an ancestor id of p's leaf:
+// if p projects on the cell's face and its (u,v) lies outside the cell's uv bound by between
+// 0.75 and 4.5 dblEpsilon, the cause is the st/uv round-trip error exceeding the dblEpsilon margin — the known
+// finding Cell.ContainsPoint.leafMargin; anything else keeps the given kind (a different defect).
+func containFailKind(pt s2.Point, id s2.CellID, kind string) string {
+	f, _, _, _, uv := s2.VerifC01CellFields(s2.CellFromCellID(id))
+	u, v, ok := s2.VerifC01FaceXYZToUV(f, pt)
+	if !ok {
+		return kind
+	}
+	out := func(x, lo, hi float64) *big.Rat {
+		X := new(big.Rat).SetFloat64(x)
+		a := new(big.Rat).Sub(new(big.Rat).SetFloat64(lo), X)
+		b := new(big.Rat).Sub(X, new(big.Rat).SetFloat64(hi))
+		if a.Cmp(b) < 0 {
+			return b
+		}
+		return a
+	}
+	ex := out(u, uv.X.Lo, uv.X.Hi)
+	if ey := out(v, uv.Y.Lo, uv.Y.Hi); ey.Cmp(ex) > 0 {
+		ex = ey
+	}
+	// the unchanged code rejects only when the excess is above dblEpsilon (up to the rounding of
+	// lo-dblEpsilon, at most 2^-54): a rejection with a smaller excess is a different defect
+	if ex.Cmp(new(big.Rat).SetFloat64(4.5*0x1p-52)) <= 0 && ex.Cmp(new(big.Rat).SetFloat64(0.75*0x1p-52)) >= 0 {
+		return "Cell.ContainsPoint.leafMargin"
+	}
+	return kind
 }
